@@ -189,4 +189,10 @@ def suite_frames(ctx):
     return s
 
 
-SUITES = [suite_malformed, suite_codec_raises, suite_frames]
+def suite_reentrant(ctx):
+    """the pending-response callback uses the client it belongs to: the call still terminates with a result or a documented exception (harness/reentrant.py)"""
+    from .. import reentrant
+    return reentrant.suite_reentrant(ctx)
+
+
+SUITES = [suite_malformed, suite_codec_raises, suite_frames, suite_reentrant]
